@@ -33,8 +33,110 @@
 -/
 import AxVerif.Model.Bytes
 import AxVerif.Model.Sql
+import AxVerif.Model.Parser
+import AxVerif.Generated.Parse
 namespace AxVerif.Sql
 open AxVerif
+
+/-! ### what the shipped parser made of the printed text (flags `notBindsLooser`, `unaryBindsLooser`)
+
+The harness prints every expression with minimal parentheses under the documented precedence.  With the shipped
+binding powers of the prefix operators the real parser read some of these texts as a different tree.  Under these
+flags the model does the same: expression → tokens (documented table) → Pratt parser with the shipped powers →
+expression. -/
+
+open AxVerif.Parser in
+mutual
+def toP : Expr → PExpr
+  | .lit .null => .null
+  | .lit (.int i) => .num i
+  | .lit (.bool b) => .bool b
+  | .lit (.text t) => .str t
+  | .lit (.rat n _) => .num n
+  | .col i => .ident (99 :: (toString i).toList.map Char.toNat)
+  | .not e => .un .not (toP e)
+  | .neg e => .un .neg (toP e)
+  | .pos e => .un .pos (toP e)
+  | .and a b => .bin .and (toP a) (toP b)
+  | .or a b => .bin .or (toP a) (toP b)
+  | .cmp op a b => .bin (match op with | .eq => .eq | .ne => .neq | .lt => .lt | .le => .le | .gt => .gt | .ge => .ge) (toP a) (toP b)
+  | .arith op a b => .bin (match op with | .add => .plus | .sub => .minus | .mul => .mul | .div => .div | .mod => .mod) (toP a) (toP b)
+  | .like neg a b => .bin (if neg then .notlike else .like) (toP a) (toP b)
+  | .isNull neg e => .bin (if neg then .isnot else .is) (toP e) .null
+  | .between neg e lo hi => .between neg (toP e) (toP lo) (toP hi)
+  | .inList neg e xs => .inList neg (toP e) (toPList xs)
+def toPList : List Expr → List PExpr
+  | [] => []
+  | e :: es => toP e :: toPList es
+end
+
+open AxVerif.Parser in
+mutual
+def fromP : PExpr → Option Expr
+  | .null => some (.lit .null)
+  | .num i => some (.lit (.int i))
+  | .bool b => some (.lit (.bool b))
+  | .str t => some (.lit (.text t))
+  | .ident (99 :: ds) => (String.ofList (ds.map Char.ofNat)).toNat?.map .col
+  | .ident _ => none
+  | .qident _ _ => none
+  | .un .not e => (fromP e).map .not
+  | .un .neg e => (fromP e).map .neg
+  | .un .pos e => (fromP e).map .pos
+  | .bin op a b =>
+    match fromP a, fromP b with
+    | some x, some y =>
+      match op with
+      | .and => some (.and x y) | .or => some (.or x y)
+      | .eq => some (.cmp .eq x y) | .neq => some (.cmp .ne x y) | .lt => some (.cmp .lt x y)
+      | .le => some (.cmp .le x y) | .gt => some (.cmp .gt x y) | .ge => some (.cmp .ge x y)
+      | .plus => some (.arith .add x y) | .minus => some (.arith .sub x y) | .mul => some (.arith .mul x y)
+      | .div => some (.arith .div x y) | .mod => some (.arith .mod x y)
+      | .like => some (.like false x y) | .notlike => some (.like true x y)
+      | .is => (match y with | .lit .null => some (.isNull false x) | _ => none)
+      | .isnot => (match y with | .lit .null => some (.isNull true x) | _ => none)
+      | .concat => none
+    | _, _ => none
+  | .between neg e lo hi =>
+    match fromP e, fromP lo, fromP hi with
+    | some a, some b, some c => some (.between neg a b c)
+    | _, _, _ => none
+  | .inList neg e xs =>
+    match fromP e, fromPList xs with
+    | some a, some ys => some (.inList neg a ys)
+    | _, _ => none
+def fromPList : List PExpr → Option (List Expr)
+  | [] => some []
+  | e :: es => match fromP e, fromPList es with
+    | some x, some xs => some (x :: xs)
+    | _, _ => none
+end
+
+/-- the tree the parser with table `T` builds from the minimal text of `e` (`e` itself if that fails) -/
+def reparse (T : Parser.Table) (e : Expr) : Expr :=
+  match Parser.parseExpr T (Parser.body Parser.docTable (toP e)) with
+  | some p => (fromP p).getD e
+  | none => e
+
+def reparseFrom (T : Parser.Table) : From → From
+  | .table t => .table t
+  | .join k l r on => .join k (reparseFrom T l) (reparseFrom T r) (on.map (reparse T))
+
+def reparseStmt (T : Parser.Table) : Stmt → Stmt
+  | .select q => .select { q with
+      from_ := reparseFrom T q.from_, where_ := q.where_.map (reparse T), groupBy := q.groupBy.map (reparse T),
+      aggs := q.aggs.map (fun a => { a with arg := reparse T a.arg }), items := q.items.map (·.map (reparse T)) }
+  | .insert t rows => .insert t (rows.map (·.map (reparse T)))
+  | .update t sets w => .update t (sets.map (fun s => (s.1, reparse T s.2))) (w.map (reparse T))
+  | .delete t w => .delete t (w.map (reparse T))
+
+def shippedParserTable (flags : List String) : Option Parser.Table :=
+  if flags.contains "notBindsLooser" || flags.contains "unaryBindsLooser" then
+    let t := Generated.parseTable
+    let t := if flags.contains "notBindsLooser" then { t with prefixNot := Parser.shippedTable.prefixNot } else t
+    some (if flags.contains "unaryBindsLooser" then
+      { t with prefixMinus := Parser.shippedTable.prefixMinus, prefixPlus := Parser.shippedTable.prefixPlus } else t)
+  else none
 
 /-! ### reading -/
 
@@ -327,7 +429,7 @@ def cutAfterFailedDml : List (Bool × String) → List String
 /-- the engine places NULL as the largest value (ASC: last, DESC: first) -/
 def nullsFirstOfEngine : Bool := false
 
-def step (D : Defects) (line : String) : String :=
+def step (D : Defects) (line : String) (shipped : Option Parser.Table := none) : String :=
   match words line with
   | "sql" :: dbw :: ";" :: rest =>
     match parseDb dbw with
@@ -338,6 +440,9 @@ def step (D : Defects) (line : String) : String :=
       match allSome (stmtWords.map (pStmt db)) with
       | none => "bad-op"
       | some stmts =>
+        let stmts := match shipped with
+          | some T => stmts.map (reparseStmt T)
+          | none => stmts
         let outs := execAll D nullsFirstOfEngine db stmts
         joinWith " ; " (cutAfterFailedDml ((stmts.zip outs).map (fun (s, o) => (isDml s, showOutcome s o))))
   | _ => "bad-op"
@@ -345,5 +450,6 @@ def step (D : Defects) (line : String) : String :=
 end AxVerif.Sql
 
 namespace AxVerif.Drivers
-def sql (flags : List String) (line : String) : String := AxVerif.Sql.step (AxVerif.Sql.parseDefects flags) line
+def sql (flags : List String) (line : String) : String :=
+  AxVerif.Sql.step (AxVerif.Sql.parseDefects flags) line (AxVerif.Sql.shippedParserTable flags)
 end AxVerif.Drivers
